@@ -546,13 +546,13 @@ Lemma structureL_views w w' : structureL w' = structureL w ->
 Proof.
   unfold structureL. intros H. injection H as Hhs Hho Hhc Hgl Hhb Hcb He Hc Hsh Hn Hb.
   split; [unfold hreg; now rewrite Hhs, Hho, Hhc, Hgl|]. split.
-  - unfold lshape, gshape. set (g := fun x : (list N * list (key * nat) * list (N * N) * list (N * N) * list key * list (N * hlist key)) + N =>
-      match x with inl (cs, _, _, _, _, ls) => Some (cs, ls) | inr _ => None end).
+  - unfold lshape, gshape. set (g := fun x : (N * N * N * list N * list (key * nat) * list (N * N) * list (N * N) * list key * list (N * hlist key)) + N =>
+      match x with inl (_, _, _, cs, _, _, _, _, ls) => Some (cs, ls) | inr _ => None end).
     assert (Hce : forall l, map (gshape_entry lview) l = map g (map ashapeL l)) by (intros l; rewrite map_map; apply map_ext; intros [a|n]; reflexivity).
     now rewrite !Hce, Hsh.
   - unfold structure. rewrite Hcb, He, Hc, Hn, Hb. f_equal. f_equal. f_equal.
-    set (g := fun x : (list N * list (key * nat) * list (N * N) * list (N * N) * list key * list (N * hlist key)) + N =>
-      match x with inl (cs, rs, i, r, _, _) => inl (cs, rs, i, r) | inr v => inr v end).
+    set (g := fun x : (N * N * N * list N * list (key * nat) * list (N * N) * list (N * N) * list key * list (N * hlist key)) + N =>
+      match x with inl (_, _, _, cs, rs, i, r, _, _) => inl (cs, rs, i, r) | inr v => inr v end).
     assert (Hce : forall l, map ashape l = map g (map ashapeL l)) by (intros l; rewrite map_map; apply map_ext; intros [a|n]; reflexivity).
     now rewrite !Hce, Hsh.
 Qed.
